@@ -1434,8 +1434,14 @@ fn scenarios() -> Vec<(Cfg, Vec<Vec<i64>>)> {
 fn stress(iter: usize) {
     use std::sync::atomic::AtomicI64;
     struct CObj(Arc<AtomicI64>, Arc<AtomicI64>);
+    static SLOW_DROP: std::sync::atomic::AtomicBool = std::sync::atomic::AtomicBool::new(false);
     impl Drop for CObj {
         fn drop(&mut self) {
+            if SLOW_DROP.load(Ordering::Relaxed) {
+                for _ in 0..300 {
+                    std::hint::spin_loop();
+                }
+            }
             let _ = self.0.fetch_sub(1, Ordering::SeqCst);
         }
     }
@@ -1619,6 +1625,36 @@ fn stress(iter: usize) {
                 if !matches!(one, Some(Ok(_))) || matches!(two, Some(Ok(_))) {
                     fails.push(format!("C02 capacity after shrink + two racing gets: max_size 1, status {:?}", p.status()));
                 }
+            }
+        }
+        // S6: close() races close() while idle objects (slow to drop) exist: whichever call returns, returns
+        // to a pool without idle objects
+        if i % 4 == 0 {
+            let (p, live, _) = mk(4);
+            let held: Vec<_> = (0..4).map(|_| ready(p.timeout_get(&nb)).unwrap().unwrap()).collect();
+            drop(held);
+            SLOW_DROP.store(true, Ordering::Relaxed);
+            let p1 = p.clone();
+            let live1 = live.clone();
+            let seen_a = Arc::new(AtomicI64::new(0));
+            let seen_a1 = seen_a.clone();
+            let mut seen_b = 0;
+            race(
+                Box::new(move || {
+                    p1.close();
+                    seen_a1.store(live1.load(Ordering::SeqCst), Ordering::SeqCst);
+                }),
+                i % 43,
+                &mut || {
+                    p.close();
+                    seen_b = live.load(Ordering::SeqCst);
+                },
+            );
+            SLOW_DROP.store(false, Ordering::Relaxed);
+            runs += 1;
+            let worst = seen_a.load(Ordering::SeqCst).max(seen_b);
+            if worst != 0 {
+                fails.push(format!("C06 close() racing close(): a close() returned while {} idle objects were still alive", worst));
             }
         }
         if fails.len() >= 5 {
